@@ -7,10 +7,12 @@
    accepted history, i.e. over every allocation policy, including the code's own (C01_lifo_is_accepted).
    [ledger evs] is the ownership map recomputed from the observable events only.
    Variants: [Repaired] = what /repo does now (every fixes/C01_*.patch is committed there) - the theorems;
+   [V4Pd] = /repo as of 27a2839: NewPrefixAllocator accepts an IPv4 network for a PD pool (recorded `known:`,
+   fixes/C01_pd_ipv6_only.patch) - the only variant besides [Repaired] the correspondence uses;
    [Unguarded] = before a1ebdc8 / 1de6b72 (range loops unguarded, PD prefix length unvalidated);
    [SharedVrf], [Defective] = still earlier states of the code (see Model.v).  The `_refuted` statements are
    historical witnesses of defects that are fixed; the correspondence check compares with [Repaired] only. *)
-From OV Require Import Common.Base C01.Model C01.Proofs C01.ProofsPD C01.ProofsReg.
+From OV Require Import Common.Base C01.Model C01.Proofs C01.ProofsPD C01.ProofsReg C01.ProofsLedger.
 Local Open Scope N_scope.
 
 (* ================================================================ PoolAllocator (IPv4, IPv6 IA_NA) *)
@@ -586,3 +588,85 @@ Example C01_reentry_conflict_detected : ex_reentry = Some R4Nil.
 Proof. vm_compute. reflexivity. Qed.
 Print Assumptions C01_reentry_conflict_detected.
 
+(* ================================================================ registry-level ledger over observables *)
+(* [registry_ledger v pfs evs f k] is the lease map of pool k of family f recomputed from the configuration
+   and the OBSERVABLE events of a registry history only: calls, answers, and the pool a containment walk
+   stopped at.  (A release has no session argument in this API: Release(x) ends whoever's lease of x in the
+   pools it addresses - ReleaseIP / ReleaseIANAByIP in every pool of the family.  That is the contract
+   the ledger transcribes; who may call it is C02's subject.) *)
+Theorem C01_registry_ledger_agrees :
+  forall v pfs ks st evs f k ac ps,
+    reg_run_from v (reg_init v pfs) ks = Some (st, evs) ->
+    assoc_find key_eqb k (r_allocs st f) = Some (ac, ps) ->
+    leases ps = registry_ledger v pfs evs f k /\ cfg_of (reg_init v pfs) f k = Some ac.
+Proof. exact registry_ledger_agrees. Qed.
+Print Assumptions C01_registry_ledger_agrees.
+
+(* uniqueness + confinement per (family, pool) over whole histories, stated over the ledger of the EARLIER
+   observable events: whatever Allocate{,IANA,PD}FromProfile answers is assignable in the answering allocator
+   (in range and not excluded / an index of the PD pool) and held by nobody there *)
+Theorem C01_registry_alloc_unique :
+  forall pfs ks st evs pre f pf ov vrf s obs k o post,
+    reg_run_from Repaired (reg_init Repaired pfs) ks = Some (st, evs) ->
+    evs = pre ++ (RAlloc f pf ov vrf s obs, ROAns k o) :: post ->
+    exists ac a, cfg_of (reg_init Repaired pfs) f k = Some ac /\ aobs_key Repaired ac o = Some a /\
+                 assignable (acfg_pool ac) a = true /\
+                 lm_lookup a (registry_ledger Repaired pfs pre f k) = None.
+Proof. exact registry_alloc_unique. Qed.
+Print Assumptions C01_registry_alloc_unique.
+
+(* a Reserve{IP,IANA,PD} walk that stopped at pool k is granted only if the ledger shows nobody else holding it there *)
+Theorem C01_registry_reserve_unique :
+  forall v pfs ks st evs pre f x s k post,
+    reg_run_from v (reg_init v pfs) ks = Some (st, evs) ->
+    evs = pre ++ (RReserve f x s (Some k), ROOk) :: post ->
+    exists ac a, cfg_of (reg_init v pfs) f k = Some ac /\ akey v ac x = Some a /\
+      (lm_lookup a (registry_ledger v pfs pre f k) = None \/
+       lm_lookup a (registry_ledger v pfs pre f k) = Some s).
+Proof. exact registry_reserve_unique. Qed.
+Print Assumptions C01_registry_reserve_unique.
+
+(* every PD allocator the (repaired) configuration step creates is in the domain of the PD arithmetic
+   theorems, so answer_ok's `ip = index_to_prefix c i` gives alignment and containment by C01_pd_roundtrip *)
+Theorem C01_spec_pd_wf :
+  forall sp c, spec_geom Repaired FPD sp = Some (Some (APd c)) -> pd_net c < W128 -> pd_wf c = true.
+Proof.
+  intros sp c H N. unfold spec_geom in H. destruct (sp_net sp) as [[na bits]|]; [|discriminate].
+  destruct (pd_new Repaired _) eqn:E; [|discriminate]. inversion H; subst c; clear H.
+  apply C01_pd_plen_validated; assumption.
+Qed.
+Print Assumptions C01_spec_pd_wf.
+
+(* ResolveV6 counterpart of C01_resolve4_stakes_its_answer: after a call that did not return nil, the
+   IA_NA address in the context is leased to the caller in an IA_NA allocator (by this call's allocation, or
+   by this call's reservation when the context brought it), a prefix allocated by this call is leased to
+   the caller in a PD allocator, and a prefix the context brought was reserved for the caller - or no
+   allocator of that family contains the value.  Nothing in the context (AllocatedIANAPool / AllocatedPDPool)
+   substitutes for that. *)
+Theorem C01_resolve6_stakes_its_answer :
+  forall v st s cx obsna obspd wna wpd st' cx' r,
+    resolve6_ctx v st s cx obsna obspd wna wpd = Some (st', cx', r) -> r6_nil r = false ->
+    (forall a, r6_na r = Some a ->
+       match c6_na cx with
+       | None => staked_ans v st' FNA s (OA a)
+       | Some b => b = a /\ (staked v st' FNA s (RA (Some a)) \/ unmanaged v st FNA (RA (Some a)))
+       end) /\
+    (forall o, r6_pd r = Some o -> c6_pd cx = None /\ staked_ans v st' FPD s o) /\
+    (forall p, c6_pd cx = Some p -> staked v st' FPD s (RP p) \/ unmanaged v st FPD (RP p)).
+Proof.
+  intros v st s cx obsna obspd wna wpd st' cx' r H. unfold resolve6_ctx in H.
+  destruct (resolve6 v st (c6_pf cx) (c6_naov cx) (c6_pdov cx) (c6_vrf cx) s (c6_na cx) (c6_pd cx) obsna obspd wna wpd)
+    as [[st1 r1]|] eqn:E; [|discriminate].
+  inversion H; subst. eapply resolve6_staked; eauto.
+Qed.
+Print Assumptions C01_resolve6_stakes_its_answer.
+
+(* open finding (known:, fixes/C01_pd_ipv6_only.patch): NewPrefixAllocator accepts an IPv4 network; the index
+   arithmetic then runs on ::ffff:10.0.0.0 and the second "prefix" of 10.0.0.0/24 -> /26 is 0:40::ffff:a00:0 *)
+Definition ex_pd_v4 : pdcfg := {| pd_net := 167772160; pd_nbits := 24; pd_plen := 26; pd_v4 := true |}.
+Theorem C01_pd_ipv4_network_refuted :
+  pd_new V4Pd ex_pd_v4 = true /\ pd_new Repaired ex_pd_v4 = false /\
+  pd_base ex_pd_v4 = 281470849515520 /\                       (* ::ffff:10.0.0.0 *)
+  index_to_prefix ex_pd_v4 1 = 5070602400912917887457662337024.   (* 0:40::ffff:a00:0 *)
+Proof. vm_compute. repeat split; reflexivity. Qed.
+Print Assumptions C01_pd_ipv4_network_refuted.
